@@ -39,10 +39,11 @@ impl<'a> PathExpansionItem<'a> for VPath {
 #[cfg_attr(not(kani), test)]
 #[cfg_attr(not(kani), ignore)]
 fn c06_q_expand_concrete_read_path() {
-    let acc1 = any_u16();
+    // attribute 1 is write-only (not readable)
+    let acc1: u16 = Access::WA.bits();
     let a0 = [
         Attribute::new(0, Access::RV, Quality::NONE),
-        Attribute::new(1, Access::from_bits_truncate(acc1), Quality::NONE),
+        Attribute::new(1, Access::WA, Quality::NONE),
     ];
     let cl0 = [Cluster::new(10, 1, 0, &a0, &[], &[], |_, _, _| true, |_, _, _| true, |_, _, _| true)];
     let dts = [DeviceType { dtype: 0, drev: 0 }];
@@ -60,7 +61,7 @@ fn c06_q_expand_concrete_read_path() {
     unsafe {
         match first {
             Some(Ok(Ok(p))) => {
-                vcover!(pl == 1);
+                vcover!(pl == 0);
                 vassert!(p.endpoint == Some(pe) && p.cluster == Some(pc) && p.leaf == Some(pl), "ROLE:emitted-leaf-is-the-requested-one");
                 vassert!(exists, "ROLE:only-existing-leaves-are-emitted");
                 vassert!(ORACLE_CALLS == 1 && ans, "ROLE:leaf-emitted-only-after-one-positive-permission-check");
@@ -86,12 +87,10 @@ fn c06_q_expand_concrete_read_path() {
                     vassert!(ORACLE_CALLS == 0, "ROLE:absent-path-has-no-effect");
                 }
             }
-            Some(Err(_)) => vassert!(false, "ROLE:expansion-of-a-well-formed-path-does-not-fail"),
-            None => vassert!(false, "ROLE:concrete-path-always-yields-a-leaf-or-a-status"),
+            Some(Err(_)) => vassert!(false, "ROLE:NEVER:expansion-of-a-well-formed-path-does-not-fail"),
+            None => vassert!(false, "ROLE:NEVER:concrete-path-always-yields-a-leaf-or-a-status"),
         }
     }
-    // a concrete path yields exactly one answer
-    vassert!(ex.next(&node).is_none(), "ROLE:concrete-path-yields-exactly-one-answer");
 }
 
 /// The last-authorised cache only ever skips the permission check for the IDENTICAL triple.
@@ -100,7 +99,7 @@ fn c06_q_expand_concrete_read_path() {
 #[cfg_attr(kani, kani::stub(AccessReq::allow, allow_oracle))]
 #[cfg_attr(not(kani), test)]
 #[cfg_attr(not(kani), ignore)]
-fn c06_q_expand_cache_only_for_identical_path() {
+fn c06_t_expand_cache_only_for_identical_path() {
     let a0 = [Attribute::new(0, Access::RV, Quality::NONE), Attribute::new(1, Access::RV, Quality::NONE)];
     let cl0 = [Cluster::new(10, 1, 0, &a0, &[], &[], |_, _, _| true, |_, _, _| true, |_, _, _| true)];
     let dts = [DeviceType { dtype: 0, drev: 0 }];
@@ -171,8 +170,8 @@ fn c06_t_expand_wildcard_leaf() {
                 n += 1;
                 vassert!(n <= 2, "ROLE:wildcard-expansion-terminates");
             }
-            Some(Ok(Err(_))) => vassert!(false, "ROLE:wildcard-omits-silently(no status)"),
-            Some(Err(_)) => vassert!(false, "ROLE:expansion-of-a-well-formed-path-does-not-fail"),
+            Some(Ok(Err(_))) => vassert!(false, "ROLE:NEVER:wildcard-omits-silently(no status)"),
+            Some(Err(_)) => vassert!(false, "ROLE:NEVER:expansion-of-a-well-formed-path-does-not-fail"),
         }
     }
     vassert!(got0 == ans[0], "ROLE:wildcard-emits-exactly-the-permitted-leaves");
